@@ -31,7 +31,8 @@ Definition ctxv_height (x : ctxv) : nat :=
   match x with FCtx K => height (k_table K) | MCtx o _ _ _ => length o end.
 
 (* a concept as the implementation holds it *)
-Record cc := mk_cc { cc_ctx : nat; cc_hash : Z; cc_mono : bool; cc_ext : list nat }.
+(* cc_pat : the concept is a PatternConcept (else a FormalConcept) *)
+Record cc := mk_cc { cc_ctx : nat; cc_hash : Z; cc_mono : bool; cc_ext : list nat; cc_pat : bool }.
 
 Inductive fo_out := FOk (ext_i ext int_i int : list nat) (hash : Z) (mono : bool) | FErr (kind : nat).
 Inductive po_out := POk (ext_i ext : list nat) (intent : list desc) (hash : Z) | PErr (kind : nat).
@@ -61,14 +62,23 @@ Definition code_of_cres (r : cres bool) : nat :=
 Definition fc_of (c : cc) : fconcept := mk_fc (cc_ext c) [] [] [] [] (Some (cc_hash c)) (cc_mono c).
 Definition pc_of (c : cc) : pconcept := mk_pc (cc_ext c) [] [] [] (Some (cc_hash c)).
 
-(* [eq; ne; le; lt; ge; gt] by the model of the code *)
-Definition model_row (pattern : bool) (a b : cc) : list nat :=
-  if pattern then
-    map code_of_cres [pc_eq (pc_of a) (pc_of b); pc_ne (pc_of a) (pc_of b); pc_le (pc_of a) (pc_of b);
-                      pc_lt (pc_of a) (pc_of b); pc_ge (pc_of a) (pc_of b); pc_gt (pc_of a) (pc_of b)]
+(* x.op(y) as the code executes it: the class of the LEFT operand decides.  A PatternConcept only
+   reads context_hash / support / extent_i of the other operand, whatever its class; a FormalConcept
+   compared with a PatternConcept of an equal hash reads other.is_monotone: AttributeError (5) *)
+Definition cmp1 (op : nat) (x y : cc) : nat :=
+  if cc_pat x then
+    code_of_cres (match op with
+                  | 0 => pc_eq (pc_of x) (pc_of y) | 1 => pc_ne (pc_of x) (pc_of y)
+                  | 2 => pc_le (pc_of x) (pc_of y) | _ => pc_lt (pc_of x) (pc_of y) end)
+  else if cc_pat y then (if Z.eqb (cc_hash x) (cc_hash y) then 5 else 2)
   else
-    map code_of_cres [fc_eq (fc_of a) (fc_of b); fc_ne (fc_of a) (fc_of b); fc_le (fc_of a) (fc_of b);
-                      fc_lt (fc_of a) (fc_of b); fc_ge (fc_of a) (fc_of b); fc_gt (fc_of a) (fc_of b)].
+    code_of_cres (match op with
+                  | 0 => fc_eq (fc_of x) (fc_of y) | 1 => fc_ne (fc_of x) (fc_of y)
+                  | 2 => fc_le (fc_of x) (fc_of y) | _ => fc_lt (fc_of x) (fc_of y) end).
+
+(* [eq; ne; le; lt; ge; gt] by the model of the code; >= and > are the reflected calls *)
+Definition model_row (a b : cc) : list nat :=
+  [cmp1 0 a b; cmp1 1 a b; cmp1 2 a b; cmp1 3 a b; cmp1 2 b a; cmp1 3 b a].
 
 Definition same_ctx (ctxs : list ctxv) (a b : cc) : bool :=
   match nth_error ctxs (cc_ctx a), nth_error ctxs (cc_ctx b) with
@@ -78,9 +88,11 @@ Definition same_ctx (ctxs : list ctxv) (a b : cc) : bool :=
 
 Definition b2n (b : bool) : nat := if b then 1 else 0.
 
-(* ... and by the property: refusal across contexts / monotonicity, else the set order *)
-Definition spec_row (pattern : bool) (ctxs : list ctxv) (a b : cc) : list nat :=
-  if negb (same_ctx ctxs a b) then repeat (if pattern then 4 else 2) 6
+(* ... and by the property: refusal across contexts / monotonicity (with the exception class of the
+   operand that executes the comparison), else the set order -- whatever routes built the concepts *)
+Definition refusal (x : cc) : nat := if cc_pat x then 4 else 2.
+Definition spec_row (ctxs : list ctxv) (a b : cc) : list nat :=
+  if negb (same_ctx ctxs a b) then [refusal a; refusal a; refusal a; refusal a; refusal b; refusal b]
   else if negb (Bool.eqb (cc_mono a) (cc_mono b)) then repeat 3 6
   else
     let m := cc_mono a in let A := cc_ext a in let B := cc_ext b in
@@ -96,61 +108,69 @@ Definition d18_guard (ctxs : list ctxv) (fresh : list Z) (a b : cc) : bool :=
 Fixpoint nodupb (l : list nat) : bool :=
   match l with [] => true | x :: l' => negb (mem x l') && nodupb l' end.
 
-(* what the theorems assume of a library-derived concept: object indexes of its context, strictly
-   increasing for a formal concept (and a closed set when not monotone), duplicate-free in any order
-   for a pattern concept (close_by_one_objectwise stores e.g. (0, 1, 4, 2)) *)
-Definition derived_ok (pattern : bool) (ctxs : list ctxv) (c : cc) : bool :=
+(* what is assumed of a library-derived concept: duplicate-free object indexes of its context; a
+   non-monotone formal concept is a closed set *)
+Definition derived_ok (ctxs : list ctxv) (c : cc) : bool :=
   match nth_error ctxs (cc_ctx c) with
   | None => false
   | Some x =>
-      (if pattern then nodupb (cc_ext c) else increasingb (cc_ext c))
-      && in_rangeb (ctxv_height x) (cc_ext c)
+      nodupb (cc_ext c) && in_rangeb (ctxv_height x) (cc_ext c)
       && match x with
-         | FCtx K => if cc_mono c then true
-                     else nat_list_eqb (cl_obj (k_table K) (cc_ext c)) (cc_ext c)
-         | _ => true
+         | FCtx K => negb (cc_pat c)
+                     && (if cc_mono c then true
+                         else same_setb (cl_obj (k_table K) (cc_ext c)) (cc_ext c))
+         | MCtx _ _ _ _ => cc_pat c
          end
   end.
+
+(* finding D81 (guard_index 2): a FormalConcept compares and hashes its extent as a TUPLE, so the
+   order / equality / hash laws need the extent stored in increasing order; close_by_one_objectwise
+   stores it in discovery order.  (PatternConcept sorts / ignores the order.) *)
+Definition canonical (c : cc) : bool := cc_pat c || increasingb (cc_ext c).
 
 Definition res_at (res : list (list nat)) (n i j k : nat) : nat := nth k (nth (i * n + j) res []) 9.
 
 Definition firstn_eqb (k : nat) (a b : list nat) : bool := nat_list_eqb (firstn k a) (firstn k b).
 
-Definition cmp_check (pattern : bool) (ctxs : list ctxv) (fresh : list Z) (cs : list cc)
-           (res : list (list nat)) : nat :=
+Definition cmp_check (ctxs : list ctxv) (fresh : list Z) (cs : list cc) (res : list (list nat)) : nat :=
   let n := length cs in
   let idx := seq 0 n in
   let pairs := list_prod idx idx in
-  let cat i := nth i cs (mk_cc 0 0 false []) in
+  let cat i := nth i cs (mk_cc 0 0 false [] false) in
   let row i j := nth (i * n + j) res [] in
   let same :=
       forallb (fun c => Z.eqb (cc_hash c) (fresh_of fresh c)) cs &&
       forallb (fun p => let '(i, j) := p in
-                 let m := model_row pattern (cat i) (cat j) in
+                 let m := model_row (cat i) (cat j) in
                  firstn_eqb 6 (row i j) m && Nat.eqb (length (row i j)) 7
                  (* the model predicts equal hashes exactly when it says "equal" *)
                  && (negb (Nat.eqb (nth 0 m 9) 1) || Nat.eqb (nth 6 (row i j) 9) 1)) pairs in
   let ok_pair p := let '(i, j) := p in
-                   firstn_eqb 6 (row i j) (spec_row pattern ctxs (cat i) (cat j))
+                   firstn_eqb 6 (row i j) (spec_row ctxs (cat i) (cat j))
                    && (negb (Nat.eqb (nth 0 (row i j) 9) 1) || Nat.eqb (nth 6 (row i j) 9) 1) in
-  let guard p := let '(i, j) := p in d18_guard ctxs fresh (cat i) (cat j) in
+  let guard1 p := let '(i, j) := p in d18_guard ctxs fresh (cat i) (cat j) in
+  let guard2 p := let '(i, j) := p in canonical (cat i) && canonical (cat j) in
   let le i j := res_at res n i j 2 in
   let eq i j := res_at res n i j 0 in
-  (* partial-order laws read off the implementation's own answers *)
-  let laws :=
-      forallb (fun i => Nat.eqb (le i i) 1) idx
-      && forallb (fun p => let '(i, j) := p in
-                   negb (Nat.eqb (le i j) 1 && Nat.eqb (le j i) 1) || Nat.eqb (eq i j) 1) pairs
-      && forallb (fun p => let '(i, j) := p in
+  (* partial-order laws read off the implementation's own answers, over the concepts [use] *)
+  let laws (use : nat -> bool) :=
+      let ix := filter use idx in
+      forallb (fun i => Nat.eqb (le i i) 1) ix
+      && forallb (fun i => forallb (fun j =>
+                   negb (Nat.eqb (le i j) 1 && Nat.eqb (le j i) 1) || Nat.eqb (eq i j) 1) ix) ix
+      && forallb (fun i => forallb (fun j =>
                    negb (Nat.eqb (le i j) 1)
-                   || forallb (fun k => negb (Nat.eqb (le j k) 1) || Nat.eqb (le i k) 1) idx) pairs in
-  let pre := forallb (derived_ok pattern ctxs) cs && Nat.eqb (length res) (n * n)
+                   || forallb (fun k => negb (Nat.eqb (le j k) 1) || Nat.eqb (le i k) 1) ix) ix) ix in
+  let pre := forallb (derived_ok ctxs) cs && Nat.eqb (length res) (n * n)
              && Nat.eqb (length fresh) (length ctxs) in
-  let ok_all := pre && laws && forallb ok_pair pairs in
-  let ok_guarded := pre && laws && forallb (fun p => negb (guard p) || ok_pair p) pairs in
-  let guards_all := forallb guard pairs in
-  if ok_all then (if same then 0 else if guards_all then 1 else 11)
-  else if ok_guarded && negb guards_all then 10 + code_of same false
+  let ok_all := pre && laws (fun _ => true) && forallb ok_pair pairs in
+  let ok_guarded := pre && laws (fun i => canonical (cat i))
+                    && forallb (fun p => negb (guard1 p && guard2 p) || ok_pair p) pairs in
+  let g1_all := forallb guard1 pairs in
+  let g2_all := forallb canonical cs in
+  let k := if negb g2_all then 20 else if negb g1_all then 10 else 0 in
+  if ok_all then (if same then 0 else 1 + k)
+  else if ok_guarded && negb (Nat.eqb k 0) then k + code_of same false
   else code_of same false.
 
 (* ------------------------------------------------------------------ from_objects (formal) *)
@@ -331,7 +351,7 @@ Definition setattr_check (pattern : bool) (key impl_err : nat) (unchanged : bool
 
 Definition c08_check (c : c08_case) : nat :=
   match c with
-  | CmpCase p ctxs fresh cs res => cmp_check p ctxs fresh cs res
+  | CmpCase p ctxs fresh cs res => cmp_check ctxs fresh cs res
   | FromObjCase b K h items => fromobj_check b K h items
   | PFromObjCase K h items => pfromobj_check K h items
   | PAllCase K h items => pall_check K h items
@@ -351,8 +371,8 @@ Definition c08_show (c : c08_case) : c08_shown :=
   match c with
   | CmpCase p ctxs fresh cs res =>
       let pairs := list_prod cs cs in
-      ShCmp (map (fun ab => model_row p (fst ab) (snd ab)) pairs)
-            (map (fun ab => spec_row p ctxs (fst ab) (snd ab)) pairs)
+      ShCmp (map (fun ab => model_row (fst ab) (snd ab)) pairs)
+            (map (fun ab => spec_row ctxs (fst ab) (snd ab)) pairs)
             (map (fun ab => d18_guard ctxs fresh (fst ab) (snd ab)) pairs)
   | FromObjCase b K h items =>
       ShFo (map (fun it => let '(arg, e, m, _) := it in fo_model b K h arg e m) items)
